@@ -216,7 +216,15 @@ class _Gen:
                 elems.append(["sig", c[0]] if (c[1] == 0 and c[2] == cw) else ["slice", ["sig", c[0]], c[1], c[2]])
                 if len(elems) == 4:
                     break
-            if len(elems) in (2, 4) or len(elems) == 3:
+            if r.random() < 0.15:
+                elems = elems[:1]           # a one-element array, indexed by a zero-width value
+            if len(elems) == 1:
+                t = ["array", elems, ["const", 0, 0, False]]
+                maxw = shape_of(elems[0], self.sigs)[0]
+                if r.random() < 0.5 and maxw >= 1:
+                    a = r.randrange(0, maxw)
+                    t = ["slice", t, a, r.randint(a + 1, maxw)]
+            elif len(elems) in (2, 4) or len(elems) == 3:
                 if len(elems) == 3:
                     elems = elems[:2]
                 r.shuffle(elems)
